@@ -21,6 +21,15 @@ observation:
 The final handler of the harness answers 299 with body "inner"; between two middlewares sits a probe
 that only records what it finds in the request context.
 
+Sessions (Session.lean), multi-record cases:
+  `reset` | `mw op= rm= rs= am= sk= nh=<handlers that exist>`  the one value RequireBearerToken(verifier, opts)
+  | `wrap hd=<j>`  the next wrapper mw(h_j) (numbered in creation order)
+  | `sreq w=<wrapper> g=<group> at=<entry ns> cx=<ns at which the request's context is cancelled | -> h= ve= … now=`
+    one request through wrapper w; the option keys repeat the `mw` record and are NOT read (the value's are used);
+    `me= pa= dc=` (method, path and query, decoy headers) are not read either: the model's request has no such
+    parts.  Observation: that of a `req` with one middleware (info: L0 = the info the verifier built for THIS request)
+    followed by `hr=<per handler: runs for this request>`.
+
 This file is the STRING LAYER only: token parser (`parseReq`, `parseObs`, incl. reading a
 `WWW-Authenticate` value into its auth-params), renderer (`renderObs`) and clause texts (`Clause.text`).
 The model line is `Bearer.obsOf` (Monitor.lean: `visits`/`stack`/`sentBy`) rendered; the monitor is
